@@ -33,7 +33,7 @@
      weak one (the harness oracle counts it as valid: closed interval, DESIGN C09). *)
 From EoNV Require Import Prelude Samp Graph ListDict ListDictP Gillespie KldP GillespieInv SampP GillespieP GillespieLog.
 From EoNV Require Import Investigation InvestigationP GillespieC10.
-From EoNV Require Import EventSIS EventSISP EventSISRows EventSISLog EventSISFast EventSISNM EventSISOut EventSISEx.
+From EoNV Require Import EventSIS EventSISP EventSISRows EventSISLog EventSISFast EventSISNM EventSISOut EventSISClock EventSISProv EventSISEx.
 
 Section C09esis.
 Variable g : graph.
@@ -74,6 +74,42 @@ Theorem C09_fast_nonMarkov_SIS_full_output_under_the_contract :
        valid_logT g (st_init i0 []) evs txs = true) /\
       valid_logb g SIS (st_init i0 []) evs txs = true /\ strict_chron evs txs.
 Proof. exact (nmsis_C09_strict g Hnd Hadj). Qed.
+
+(* where a transmission of fast_nonMarkov_SIS comes from (rules_ok only): a sourced entry
+   (t, u, v) is t = s + d for the k-th infection (s, u, I) of u in the log and a delay d the
+   user's rule returned for exactly that infection.  The code schedules the recovery of
+   that infection at s + dur u k (rec_time[u] = time + duration). *)
+Theorem C09_fast_nonMarkov_SIS_provenance :
+  forall dur delays tmax tmin i0 fuel out,
+    xlt tmin tmax = true -> NoDup i0 -> incl i0 (gnodes g) -> rules_ok dur delays ->
+    nm_run g dur delays tmax tmin true fuel i0 = Ok out ->
+    exists (evs : list ev) (txs : list tx),
+      ((exists fd, so_full out = Some fd /\ fd_trans fd = map (fun u => (tmin, None, u)) i0 ++ txs) /\
+       so_rows out = log_arrays (gnodes g) [stS; stI] tmin (st_init i0 []) evs /\
+       length txs = cinf evs /\
+       valid_logT g (st_init i0 []) evs txs = true) /\
+      forall t u v, In (t, Some u, v) txs ->
+        exists s k d, kth_infection (map (fun x => (tmin, x, stI)) i0 ++ evs) s u k /\
+                      In d (delays u v k) /\ t = tadd s d.
+Proof. exact (nmsis_provenance g Hnd Hadj). Qed.
+
+(* hence, under the documented contract read non-strictly ([rules_contract]: every delay <=
+   the duration of the same infection): the transmission lies in the CLOSED infectious
+   period [s, s + dur u k] of its source.  (At t = s + dur u k the recovery, queued first,
+   is processed first: the source is then already susceptible in the replayed statuses —
+   see the tie example below; this is why the status-level theorem needs the strict form.) *)
+Theorem C09_fast_nonMarkov_SIS_closed_infectious_period :
+  forall dur delays tmax tmin i0 fuel out,
+    xlt tmin tmax = true -> NoDup i0 -> incl i0 (gnodes g) -> rules_ok dur delays -> rules_contract dur delays ->
+    nm_run g dur delays tmax tmin true fuel i0 = Ok out ->
+    exists (evs : list ev) (txs : list tx),
+      ((exists fd, so_full out = Some fd /\ fd_trans fd = map (fun u => (tmin, None, u)) i0 ++ txs) /\
+       so_rows out = log_arrays (gnodes g) [stS; stI] tmin (st_init i0 []) evs /\
+       length txs = cinf evs /\
+       valid_logT g (st_init i0 []) evs txs = true) /\
+      forall t u v, In (t, Some u, v) txs ->
+        exists s k, kth_infection (map (fun x => (tmin, x, stI)) i0 ++ evs) s u k /\ s <= t /\ t <= tadd s (dur u k).
+Proof. exact (nmsis_closed_period g Hnd Hadj). Qed.
 
 (* what the checkers say, event by event.  k-th event (t, x, s) of the log:
    s = I: x is susceptible in the statuses replayed up to it, and the entry of txs at
@@ -144,7 +180,26 @@ Proof.
   injection F2 as <-. reflexivity.
 Qed.
 
+(* the tie: delay = duration.  Inside rules_ok and the non-strict contract, outside the strict
+   one; the recovery of node 0 at time 1 is reported BEFORE its transmission to node 1 at
+   time 1 (rows: S,I = 1,1 -> 2,0 -> 1,1) *)
+Example C09esis_tie_example :
+  rules_ok durT delT /\ rules_contract durT delT /\ ~ rules_strict durT delT /\
+  exists out, nm_run g2 durT delT (Some 3) 0 true 50 [0%N] = Ok out /\
+    map (fun x : row => (Qred (fst x), snd x)) (so_rows out) = [(0, [1; 1]%Z); (1, [2; 0]%Z); (1, [1; 1]%Z)] /\
+    match so_full out with
+    | Some fd => map (fun x : tx => (Qred (fst (fst x)), snd (fst x), snd x)) (fd_trans fd) = [(0, None, 0%N); (1, Some 0%N, 1%N)]
+    | None => False end.
+Proof.
+  split; [exact exT_rules_ok|]. split; [exact exT_rules_contract|]. split; [exact exT_not_strict|].
+  destruct (nm_run g2 durT delT (Some 3) 0 true 50 [0%N]) as [out|e] eqn:E; [|vm_compute in E; discriminate E].
+  exists out. split; [reflexivity|]. vm_compute in E. injection E as <-. split; reflexivity.
+Qed.
+
 Print Assumptions C09_fast_SIS_full_output.
+Print Assumptions C09_fast_nonMarkov_SIS_provenance.
+Print Assumptions C09_fast_nonMarkov_SIS_closed_infectious_period.
+Print Assumptions C09esis_tie_example.
 Print Assumptions C09_fast_nonMarkov_SIS_full_output.
 Print Assumptions C09_fast_nonMarkov_SIS_full_output_under_the_contract.
 Print Assumptions C09esis_target_half.
